@@ -15,12 +15,15 @@ Cfgs(hostseqs, pols, outs, ks, idems, cancels) ==
      hs \in hostseqs, p \in pols, k \in ks, i \in idems, cn \in cancels}
 
 \* ---- exhaustive property configurations
-\* quick: <= 3 hosts (usable or not), budgets 0..2 and no policy, k 0..2, both idempotence values
+\* quick: <= 3 hosts (usable or not), budgets 0..2 and no policy, both idempotence values; k <= 1 on
+\* every host pattern, k = 2 on three of them; cancellation on two patterns with all outcome classes
+Pols012 == {PolNone} \cup {PolBudget(n) : n \in 0 .. 2}
 CfgQuick ==
-  Cfgs(HostSeqs(3, {"ok", "noconn"}), {PolNone} \cup {PolBudget(n) : n \in 0 .. 2}, CoreOuts, 0 .. 2, BOOLEAN, {FALSE})
+  Cfgs(HostSeqs(3, {"ok", "noconn"}), Pols012, CoreOuts, {0, 1}, BOOLEAN, {FALSE})
+  \cup Cfgs({<<"ok", "ok">>, <<"ok", "ok", "ok">>, <<"ok", "noconn", "ok">>}, Pols012, CoreOuts, {2}, BOOLEAN, {FALSE})
   \cup Cfgs({<<"ok", "ok">>, <<"ok", "noconn", "ok">>}, {PolBudget(1), PolScript({2})}, ScriptOuts, {0, 1}, BOOLEAN, {TRUE})
 \* thorough: all outcome classes, non-monotone budgets, 4 hosts, cancellation everywhere
-CfgThA == Cfgs(HostSeqs(3, {"ok", "noconn"}), {PolNone} \cup {PolBudget(n) : n \in 0 .. 2} \cup {PolScript({2})},
+CfgThA == Cfgs(HostSeqs(3, {"ok", "noconn"}), Pols012 \cup {PolScript({2})},
                ScriptOuts, 0 .. 2, BOOLEAN, {FALSE})
 CfgThB == Cfgs({<<"ok", "ok", "ok", "ok">>}, {PolBudget(2), PolScript({1, 3})}, CoreOuts, {2}, {TRUE}, {FALSE})
           \cup Cfgs({<<"ok", "noconn", "ok", "ok">>}, {PolBudget(2)}, CoreOuts, {2}, {TRUE}, {FALSE})
@@ -30,7 +33,7 @@ CfgThorough == CfgThA \cup CfgThB \cup CfgThC
 \* the instance DESIGN.md measured: 4 hosts, budget 2, k = 2
 CfgWitness == Cfgs({<<"ok", "ok", "ok", "ok">>}, {PolBudget(2)}, {"ok", "e_retry", "e_next"}, {2}, {TRUE}, {FALSE})
 \* liveness (small)
-CfgLive == Cfgs(HostSeqs(2, {"ok", "noconn"}), {PolNone, PolBudget(1)}, CoreOuts, {0, 1}, BOOLEAN, BOOLEAN)
+CfgLive == Cfgs({<<>>, <<"ok">>, <<"noconn", "ok">>, <<"ok", "ok">>}, {PolNone, PolBudget(1)}, {"ok", "e_retry", "e_next"}, {0, 1}, BOOLEAN, BOOLEAN)
 
 \* ---- behaviour dumps (KeepHist = TRUE): one line per complete behaviour
 \* sequential: no speculation (k = 0 or not idempotent); deterministic up to the environment
